@@ -4526,6 +4526,13 @@ class ParameterizedMetaclass(type):
                 inherited_default = parameter.default
                 parameter = copy.copy(parameter)
                 parameter.owner = mcs
+                # Shallow-copy any mutable slot values other than the default
+                # (and the watchers, which class Parameters share), so that
+                # changes made to them through this class stay with this class
+                for s in type(parameter)._all_slots_:
+                    v = getattr(parameter, s)
+                    if _is_mutable_container(v) and s not in ("default", "watchers"):
+                        setattr(parameter, s, copy.copy(v))
                 type.__setattr__(mcs,attribute_name,parameter)
                 mcs._clear_params_cache()
             try:
